@@ -248,6 +248,12 @@ func runCheck(repo, root, id, tier string, seed int, mutant string, writeEvidenc
 	if os.Getenv("GOVC_NO_CACHE") != "" || tier == "thorough" {
 		cacheDir = ""
 	}
+	if cacheDir != "" {
+		// the cache is an optimisation only: it is emptied when it has grown large
+		if ents, err := os.ReadDir(cacheDir); err == nil && len(ents) > 250000 {
+			os.RemoveAll(cacheDir)
+		}
+	}
 	discharge(append(append([]*VC{}, vcs...), findingVCs...), runOpts{scratch: scratch, timeoutS: timeout, all: all, workers: 8, cacheDir: cacheDir})
 	stillFails := map[string]bool{}
 	for _, vu := range findingVCs {
